@@ -26,7 +26,7 @@ UNPROVED = ['cw_rankedpairs (rankedPairs sc v 1 = ok [w]): FALSE as stated on th
             'candidate, here the whole Smith set)',
             'rankedpairs no_candidate_dropped: FALSE (rankedpairs_dropped_witness)',
             'copeland second-order defining computation (only the first-order scores are characterised: copeland_defining)']
-NAME_MODES = ['str', 'int0', 'empty0', 'person']
+NAME_MODES = ['str', 'int0', 'empty0', 'person', 'tuple']
 REQUIRED_COUNTERS = ['converter', 'converter_no_bottom', 'has_cw', 'sparse_never_loser', 'all_tied', 'cycle', 'from_ranked', 'uab_true',
                      'uab_false', 'n_all', 'n_one', 'hybrid', 'second_order_used', 'fraction', 'missing_pair',
                      # generator audit (GENERATOR_CHECKLIST.md)
